@@ -3,7 +3,9 @@
 // What is executed: real install / upgrade / rollback / uninstall histories against the simulated
 // API server with generated hook sets (0-4 hooks per lifecycle event and chart version, hooks bound
 // to several events; pairs of hooks with the same kind and metadata.name in two namespaces (explicit
-// metadata.namespace), with equal or different weights and policies; weights negative / equal / non-numeric / absent; hook names whose order
+// metadata.namespace), with equal or different weights and policies; weights negative / equal / non-numeric / absent, and in
+// part of the charts weights from the whole range of the platform int (both ends of the range, +-2^62,
+// just outside 32 bits), so that hooks of one event lie further apart than the largest int; hook names whose order
 // differs from the order of the files that define them, sometimes two hooks per file; kinds
 // ConfigMap / Job / Pod / ServiceAccount; every subset of the three delete policies). Every history
 // is run once fault-free and then once per SINGLE hook failure: every hook create of every op
@@ -43,6 +45,7 @@ package c12
 
 import (
 	"fmt"
+	"math"
 	"math/rand"
 	"regexp"
 	"sort"
@@ -71,7 +74,7 @@ func init() {
 	core.Register(&core.Prop{
 		ID:    "C12",
 		Level: "fault_enumeration",
-		Rule: "per hook-set seed: two chart versions with independently generated hook sets (0-4 hooks per event, multi-event hooks, same-kind same-name hook pairs in two namespaces, weights incl. negative/equal/non-numeric, all 8 delete-policy subsets, 4 kinds, name order != file order) and one of 7 history shapes over install/upgrade/rollback/uninstall (some ops with hooks disabled, two shapes with atomic+no-hooks ops that are additionally run with a failing readiness wait), on memory and secrets storage; one fault-free run plus one run per single hook failure (each hook create rejected once, each hook readiness failing once) of every op; all ops of every run are judged. Plus a CLI family (cli.go): the real cobra commands install / upgrade / upgrade --install / rollback / uninstall with --no-hooks (and --atomic) against the simulator over HTTP, judged by hook-created-with-hooks-disabled, with the same commands without --no-hooks as positive control. " +
+		Rule: "per hook-set seed: two chart versions with independently generated hook sets (0-4 hooks per event, multi-event hooks, same-kind same-name hook pairs in two namespaces, weights incl. negative/equal/non-numeric and, in about 40% of the charts, weights from the whole int range (ends of the range, +-2^62, just beyond 32 bits: hooks of one event further apart than MaxInt), all 8 delete-policy subsets, 4 kinds, name order != file order) and one of 7 history shapes over install/upgrade/rollback/uninstall (some ops with hooks disabled, two shapes with atomic+no-hooks ops that are additionally run with a failing readiness wait), on memory and secrets storage; one fault-free run plus one run per single hook failure (each hook create rejected once, each hook readiness failing once) of every op; all ops of every run are judged. Plus a CLI family (cli.go): the real cobra commands install / upgrade / upgrade --install / rollback / uninstall with --no-hooks (and --atomic) against the simulator over HTTP, judged by hook-created-with-hooks-disabled, with the same commands without --no-hooks as positive control. " +
 			"distinct_nontrivial counts distinct (op kind, event, number of hooks in the event, failure kind, policy set of the failing hook, leftover-present) tuples among judged events that ran at least one hook.",
 		Assumptions: []string{
 			"the simulated API server applies requests like a real API server; its request log and the scripted waiter share one logical clock",
@@ -165,6 +168,50 @@ var stems = []string{"alpha", "bravo", "charlie", "delta", "echo", "kilo", "lima
 var weights = []string{"", "", "-5", "-1", "0", "0", "1", "1", "2", "10", "abc", "1.5", "007", "+3"}
 var kinds = []string{"ConfigMap", "Job", "Pod", "ServiceAccount"}
 var policySets = [][]string{nil, {"before-hook-creation"}, {"hook-succeeded"}, {"hook-failed"}, {"before-hook-creation", "hook-succeeded"}, {"before-hook-creation", "hook-failed"}, {"hook-succeeded", "hook-failed"}, {"before-hook-creation", "hook-succeeded", "hook-failed"}}
+
+// wideWeights are legal weights from the whole range of the (64-bit) int the annotation is read
+// into: both ends of the range, values around +-2^62 (two of them are further apart than MaxInt64
+// without either being an end of the range) and values just outside the 32-bit range. "Ascending
+// weight" is stated for all of them.
+var wideWeights = []string{
+	"-9223372036854775808", "-9223372036854775807", "-4611686018427387905", "-4294967297", "-2147483649",
+	"2147483648", "4294967297", "4611686018427387904", "9223372036854775806", "9223372036854775807",
+}
+
+// widen gives about 40% of the charts weights from the whole int range: every hook of such a chart
+// trades its weight for a wide one with probability 1/2, the others keep their ordinary (small /
+// absent / non-numeric) weight, so that events mix both. It draws from its own random stream: the
+// rest of the setup is the same with and without it.
+func (cs *chartSpec) widen(rng *rand.Rand) {
+	if rng.Intn(100) >= 40 {
+		return
+	}
+	for i := range cs.Hooks {
+		if rng.Intn(2) == 0 {
+			cs.Hooks[i].Weight = gen.Pick(rng, wideWeights)
+		}
+	}
+}
+
+// weightSpan classifies the weights of the hooks of one event: beyondInt = two of them differ by
+// more than the largest int, beyond32 = one of them does not fit into 32 bits.
+func weightSpan(hs []inst) (beyondInt, beyond32 bool) {
+	if len(hs) == 0 {
+		return
+	}
+	lo, hi := hs[0].Def.weight(), hs[0].Def.weight()
+	for _, h := range hs {
+		w := h.Def.weight()
+		if w < lo {
+			lo = w
+		}
+		if w > hi {
+			hi = w
+		}
+		beyond32 = beyond32 || int(int32(w)) != w
+	}
+	return uint64(hi)-uint64(lo) > uint64(math.MaxInt64), beyond32
+}
 
 func genChart(rng *rand.Rand, res [][3]string) chartSpec {
 	cs := chartSpec{Res: res}
@@ -304,6 +351,10 @@ func mkSetup(d caseData) setup {
 			}
 		}
 		s.shape += "+some-nohooks"
+	}
+	wr := rand.New(rand.NewSource(d.HSeed ^ 0x2545F4914F6CDD1D))
+	for i := range s.charts {
+		s.charts[i].widen(wr)
 	}
 	return s
 }
@@ -713,6 +764,14 @@ func (s *setup) judgeOp(res *core.Result, w *env.World, in judgeIn, detail func(
 		if twins && failing == nil {
 			res.Stat("events_with_namespace_twins_all_run", 1)
 		}
+		if beyondInt, beyond32 := weightSpan(hs); failing == nil && len(hs) > 1 {
+			if beyondInt {
+				res.Stat("events_with_weights_further_apart_than_maxint_ordered", 1)
+			}
+			if beyond32 {
+				res.Stat("events_with_weights_beyond_32_bits_ordered", 1)
+			}
+		}
 		res.Key("%s|%s|n=%d|fail=%s|%s|leftover=%v|twins=%v", op.Kind, ev, len(hs), fk, fp, leftover, twins)
 		res.Stat("events_with_hooks_judged", 1)
 	}
@@ -998,7 +1057,7 @@ func run(c core.Case, verbose bool) core.Result {
 
 func post(a *core.Agg) string {
 	var miss []string
-	for _, k := range []string{"hook_creates_ordered", "hook_completions_observed", "delete_policy_decisions_checked", "leftovers_met_by_before_hook_creation", "failed_pre_hooks_gate_checked", "failed_post_hooks_checked", "ops_with_hooks_disabled_checked", "failed_atomic_ops_with_hooks_disabled_checked:upgrade", "failed_atomic_ops_with_hooks_disabled_checked:install", "hook_failures_judged:create", "hook_failures_judged:ready", "hook_object_end_states_compared", "events_with_namespace_twins_all_run",
+	for _, k := range []string{"hook_creates_ordered", "hook_completions_observed", "delete_policy_decisions_checked", "leftovers_met_by_before_hook_creation", "failed_pre_hooks_gate_checked", "failed_post_hooks_checked", "ops_with_hooks_disabled_checked", "failed_atomic_ops_with_hooks_disabled_checked:upgrade", "failed_atomic_ops_with_hooks_disabled_checked:install", "hook_failures_judged:create", "hook_failures_judged:ready", "hook_object_end_states_compared", "events_with_namespace_twins_all_run", "events_with_weights_further_apart_than_maxint_ordered", "events_with_weights_beyond_32_bits_ordered",
 		"cli_commands_with_hooks_disabled_that_acted", "cli_failed_atomic_commands_with_hooks_disabled_checked", "cli_control_hook_creates:install-install", "cli_control_hook_creates:upgrade-upgrade", "cli_control_hook_creates:upgrade-install", "cli_control_hook_creates:rollback-rollback", "cli_control_hook_creates:uninstall-delete"} {
 		if a.Stats[k] == 0 {
 			miss = append(miss, k)
